@@ -12,6 +12,7 @@ import time
 import abstract
 import core
 import corecheck
+import optionscheck
 import runlib
 import tlc
 import worlds
@@ -91,6 +92,9 @@ def run(chk, tier, seed, replay=None):
     chk.assumptions += ['re.search is the environment relation "pattern matches name"',
                         'TLAPS (tlapm 1.6) for the unbounded lemmas']
     rng = random.Random(seed * 7919 + 8)
+    if replay and optionscheck.is_replay(replay):
+        optionscheck.replay(chk, replay, ['C08:'])
+        return
     if replay:
         with open(replay) as f:
             r = json.load(f)
@@ -108,6 +112,9 @@ def run(chk, tier, seed, replay=None):
     if not res.violation:
         chk.machinery('FilterMC_probe: the only-negatives corner was not reached')
     run_tlaps(chk)
+    # what reaches build_filtering_func: pattern lists from defaults + command line + the
+    # legacy positional filters (Options.tla, Trace_Options)
+    optionscheck.run(chk, tier, seed, ['C08:'], mc=False)
     maxlen = 2 if tier == 'quick' else 3
     lists = [list(c) for k in range(1, maxlen + 1)
              for c in itertools.product(POOL, repeat=k)]
